@@ -72,10 +72,8 @@ func ruleTickLevers(c *Ctx, r1, r2 string, run, sign *ssa.Function) {
 		for _, ci := range callsIn(f, func(ci ssa.CallInstruction) bool { return ci.Common().StaticCallee() == sign }) {
 			isGo := false
 			forEachInstr(run, func(_ *ssa.BasicBlock, _ int, in ssa.Instruction) {
-				if g, ok := in.(*ssa.Go); ok {
-					if mc, ok := g.Common().Value.(*ssa.MakeClosure); ok && mc.Fn == ssa.Value(f) {
-						isGo = true
-					}
+				if g, ok := in.(*ssa.Go); ok && calledFunc(g) == f {
+					isGo = true
 				}
 			})
 			if !isGo {
@@ -190,10 +188,8 @@ func ruleCatchupLever(c *Ctx, rule string, run, sign *ssa.Function) {
 	var g *ssa.Go
 	forEachInstr(run, func(_ *ssa.BasicBlock, _ int, in ssa.Instruction) {
 		if x, ok := in.(*ssa.Go); ok {
-			if mc, ok := x.Common().Value.(*ssa.MakeClosure); ok {
-				if f, ok := mc.Fn.(*ssa.Function); ok && len(callsIn(f, func(ci ssa.CallInstruction) bool { return ci.Common().StaticCallee() == sign })) > 0 {
-					g = x
-				}
+			if f := calledFunc(x); f != nil && f.Parent() == run && len(callsIn(f, func(ci ssa.CallInstruction) bool { return ci.Common().StaticCallee() == sign })) > 0 {
+				g = x
 			}
 		}
 	})
@@ -204,9 +200,17 @@ func ruleCatchupLever(c *Ctx, rule string, run, sign *ssa.Function) {
 	ga := g.Common().Args
 	ok := false
 	detail := ""
-	if len(ga) == 2 {
-		cur := ga[0]
-		bPtr := derefOf(ga[1])
+	// the goroutine is handed the tick (a roundInfo) and a copy of the appended beacon (*b), among possibly other values
+	var cur, bPtr ssa.Value
+	for _, a := range ga {
+		switch typeShort(a.Type()) {
+		case "internal/chain/beacon.roundInfo":
+			cur = a
+		case "common.Beacon":
+			bPtr = derefOf(a)
+		}
+	}
+	if cur != nil {
 		// the tick value compared is the one received from the ticker
 		curFromTicker := hasOrigin(Origins(cur), func(o Origin) bool { return o.Kind == "recv" && strings.Contains(o.Name, "ChannelAt") })
 		// the edges skipping the goroutine must imply b.Round >= current.round
@@ -287,10 +291,15 @@ func ruleAggregatorSync(c *Ctx, rule string) {
 		okS := false
 		for _, r := range returnsOf(sf) {
 			for _, o := range returnOperands(r)[0] {
-				if b, isB := o.(*ssa.BinOp); isB && b.Op == token.GTR {
-					x, okx := termOf(b.X)
-					y, oky := termOf(b.Y)
-					if okx && oky && strings.Contains(x.path, sf.Params[2].Name()) && strings.Contains(y.path, sf.Params[1].Name()) && y.off-x.off == 1 {
+				// new.Round > last.Round+1 in any spelling: strictly  last.Round + 1 < new.Round  (or  last.Round + 2 <= new.Round)
+				if lo, hi, strict, isOrd := ordForm(o, true); isOrd {
+					x, okx := termOf(hi)
+					y, oky := termOf(lo)
+					want := int64(1)
+					if !strict {
+						want = 2
+					}
+					if okx && oky && strings.Contains(x.path, sf.Params[2].Name()) && strings.Contains(y.path, sf.Params[1].Name()) && y.off-x.off == want {
 						okS = true
 					}
 				}
@@ -322,32 +331,53 @@ func ruleSyncRenewal(c *Ctx, rule string) {
 	}
 	// guard: ctx.Err() != nil || clock.Now().After(lastRoundTime + period*factor)
 	hasErrArm, hasTimeArm := false, false
-	for _, blk := range fn.Blocks {
-		cond := condOf(blk)
-		if cond == nil {
-			continue
-		}
-		if x, isEq, ok := nilTest(cond); ok && !isEq {
-			if call, ok := x.(*ssa.Call); ok && methodName(call) == "Err" && reachesDirect(blk.Succs[0], g.Block()) {
-				hasErrArm = true
+	// "leads to": from the edge every path reaches the go statement before it gets back to the select or leaves Run
+	barrier := func(b *ssa.BasicBlock) bool {
+		for _, in := range b.Instrs {
+			switch in.(type) {
+			case *ssa.Select, *ssa.Return:
+				return true
 			}
 		}
-		if call, ok := cond.(*ssa.Call); ok && methodName(call) == "After" {
-			// receiver is clock.Now(), argument derives from lastRoundTime.Add(period * factor)
-			recvP := pathOf(callArgs(call)[0])
-			argOr := Origins(callArgs(call)[1])
-			usesPeriod := false
-			for _, o := range argOr {
-				if o.Kind == "call" && strings.HasSuffix(o.Name, "time.Time).Add") {
-					add := o.Val.(*ssa.Call)
-					p := pathOf(add.Common().Args[1])
-					if strings.Contains(p, ".period") && strings.Contains(p, ".factor") {
-						usesPeriod = true
-					}
+		return false
+	}
+	leadsTo := func(e edge) bool {
+		tgt := g.Block()
+		if e.to() == tgt {
+			return true
+		}
+		escaped := walkFeasible(e.to(), pctx{}, func(x edge) bool { return x.to() == tgt }, barrier)
+		return !escaped && reachableFrom(e.to(), nil)[tgt]
+	}
+	for _, blk := range fn.Blocks {
+		for i := range blk.Succs {
+			e := edge{blk, i}
+			cond, truth, okc := edgeCond(e)
+			if !okc {
+				continue
+			}
+			if x, isEq, ok := nilTest(cond); ok && isEq != truth { // x != nil holds on e
+				if call, ok := x.(*ssa.Call); ok && methodName(call) == "Err" && leadsTo(e) {
+					hasErrArm = true
 				}
 			}
-			if strings.Contains(recvP, "clock") && usesPeriod && reachesDirect(blk.Succs[0], g.Block()) {
-				hasTimeArm = true
+			if call, ok := cond.(*ssa.Call); ok && truth && methodName(call) == "After" {
+				// receiver is clock.Now(), argument derives from lastRoundTime.Add(period * factor)
+				recvP := pathOf(callArgs(call)[0])
+				argOr := Origins(callArgs(call)[1])
+				usesPeriod := false
+				for _, o := range argOr {
+					if o.Kind == "call" && strings.HasSuffix(o.Name, "time.Time).Add") {
+						add := o.Val.(*ssa.Call)
+						p := pathOf(add.Common().Args[1])
+						if strings.Contains(p, ".period") && strings.Contains(p, ".factor") {
+							usesPeriod = true
+						}
+					}
+				}
+				if strings.Contains(recvP, "clock") && usesPeriod && leadsTo(e) {
+					hasTimeArm = true
+				}
 			}
 		}
 	}
@@ -507,7 +537,9 @@ func runC10(c *Ctx) {
 }
 
 func ruleKeyProvenanceIn(c *Ctx, rule string, fn *ssa.Function) {
-	for _, ci := range callsIn(fn, func(ci ssa.CallInstruction) bool { return strings.HasSuffix(calleeName(ci), "crypto.Scheme).VerifyBeacon") }) {
+	for _, ci := range callsIn(fn, func(ci ssa.CallInstruction) bool {
+		return strings.HasSuffix(calleeName(ci), "crypto.Scheme).VerifyBeacon")
+	}) {
 		kp := pathOf(ci.Common().Args[2])
 		c.Ok(rule, fnShort(fn)+" verifies under the pinned chain key", shortPos(c.P, ci), kp == fn.Params[0].Name()+".info.PublicKey", "key = "+kp)
 	}
@@ -525,7 +557,9 @@ func ruleFailedCheckAbandonsPeer(c *Ctx, rule string, tn *ssa.Function) {
 		c.Ok(rule, "tryNode receive loop", c.P.Pos(tn.Pos()), false, "no blocking select")
 		return
 	}
-	for _, ci := range callsIn(tn, func(ci ssa.CallInstruction) bool { return strings.HasSuffix(calleeName(ci), "crypto.Scheme).VerifyBeacon") }) {
+	for _, ci := range callsIn(tn, func(ci ssa.CallInstruction) bool {
+		return strings.HasSuffix(calleeName(ci), "crypto.Scheme).VerifyBeacon")
+	}) {
 		vc := ci.(*ssa.Call)
 		var failBlk *ssa.BasicBlock
 		for _, ev := range errValuesOf(vc) {
@@ -593,7 +627,9 @@ func ruleBeaconIDBeforeConversion(c *Ctx, rule string, tn *ssa.Function) {
 			return false
 		}
 		x, y := pathOf(b.X), pathOf(b.Y)
-		isPkt := func(p string) bool { return strings.HasSuffix(p, ".Metadata.BeaconID") || strings.HasSuffix(p, ".BeaconID") && !strings.HasPrefix(p, s+".") }
+		isPkt := func(p string) bool {
+			return strings.HasSuffix(p, ".Metadata.BeaconID") || strings.HasSuffix(p, ".BeaconID") && !strings.HasPrefix(p, s+".")
+		}
 		isPinned := func(p string) bool { return p == s+".info.ID" }
 		if !((isPkt(x) && isPinned(y)) || (isPkt(y) && isPinned(x))) {
 			return false
@@ -703,35 +739,22 @@ func ruleFollowRetry(c *Ctx, rule string) {
 		return
 	}
 	// the select in the loop has a receive arm on the channel the Sync goroutine sends to
-	var sendCell ssa.Value
+	var sendChan ssa.Value
 	for _, f := range fn.AnonFuncs {
 		forEachInstr(f, func(_ *ssa.BasicBlock, _ int, in ssa.Instruction) {
 			if s, ok := in.(*ssa.Send); ok {
 				if call, ok := s.X.(*ssa.Call); ok && strings.HasSuffix(calleeName(call), "SyncManager).Sync") {
-					// the channel is a captured variable: find the cell it is bound to in the parent
-					if u, ok := s.Chan.(*ssa.UnOp); ok {
-						if fv, ok := u.X.(*ssa.FreeVar); ok {
-							forEachInstr(fn, func(_ *ssa.BasicBlock, _ int, in2 ssa.Instruction) {
-								if mc, ok := in2.(*ssa.MakeClosure); ok && mc.Fn == ssa.Value(f) {
-									for i, v := range f.FreeVars {
-										if v == fv && i < len(mc.Bindings) {
-											sendCell = mc.Bindings[i]
-										}
-									}
-								}
-							})
-						}
-					}
+					sendChan = canonValue(s.Chan)
 				}
 			}
 		})
 	}
 	ok := false
-	if sendCell != nil {
+	if sendChan != nil {
 		forEachInstr(fn, func(_ *ssa.BasicBlock, _ int, in ssa.Instruction) {
 			if sel, isSel := in.(*ssa.Select); isSel {
 				for _, st := range sel.States {
-					if u, isU := st.Chan.(*ssa.UnOp); isU && st.Dir == types.RecvOnly && u.X == sendCell {
+					if st.Dir == types.RecvOnly && canonValue(st.Chan) == sendChan {
 						ok = true
 					}
 				}
@@ -848,45 +871,61 @@ func ruleCheckAndCorrect(c *Ctx, rule string) {
 
 func ruleCompletionExact(c *Ctx, rule string, tn *ssa.Function) {
 	c.ranRules[rule] = true
+	// tryNode(ctx, from, upTo, peer): the target round is the third parameter after the receiver
 	upTo := ""
-	for _, p := range tn.Params {
-		if p.Name() == "upTo" {
-			upTo = p.Name()
+	if len(tn.Params) >= 4 {
+		upTo = tn.Params[3].Name()
+	}
+	// the values tryNode can return, each pinned to the instruction its path leaves from (`a && b` returns a phi)
+	type leaf struct {
+		v  ssa.Value
+		at ssa.Instruction
+	}
+	var leaves []leaf
+	var expand func(v ssa.Value, at ssa.Instruction, d int)
+	expand = func(v ssa.Value, at ssa.Instruction, d int) {
+		if ph, ok := v.(*ssa.Phi); ok && d < 4 {
+			for i, e := range ph.Edges {
+				pred := ph.Block().Preds[i]
+				expand(e, pred.Instrs[len(pred.Instrs)-1], d+1)
+			}
+			return
+		}
+		leaves = append(leaves, leaf{v, at})
+	}
+	for _, r := range returnsOf(tn) {
+		for _, o := range returnOperands(r)[0] {
+			expand(o, r, 0)
 		}
 	}
 	n := 0
-	for _, r := range returnsOf(tn) {
-		isTrue := false
-		for _, o := range returnOperands(r)[0] {
-			if k, ok := o.(*ssa.Const); ok && k.Value != nil && k.Value.ExactString() == "true" {
-				isTrue = true
+	for _, lf := range leaves {
+		switch x := lf.v.(type) {
+		case *ssa.Const:
+			if x.Value == nil || x.Value.ExactString() != "true" {
+				continue // a failure outcome
 			}
-		}
-		if !isTrue {
-			continue
-		}
-		n++
-		var rp string
-		g1 := mustCross(r, func(e edge) bool {
-			for _, k := range consOfEdge(e) {
-				if k.Y == upTo && strings.HasSuffix(k.X, ".Round") && k.K <= 0 {
-					rp = k.X
-					return true
+			n++
+			var rp string
+			g1 := mustCross(lf.at, func(e edge) bool {
+				for _, k := range consOfEdge(e) {
+					if k.Y == upTo && strings.HasSuffix(k.X, ".Round") && k.K <= 0 {
+						rp = k.X
+						return true
+					}
 				}
-			}
-			return false
-		})
-		g2 := rp != "" && dcGuarded(r, DCons{upTo, rp, 0})
-		c.Ok(rule, "tryNode reports success only when the stored beacon's round equals the requested target", shortPos(c.P, r), g1 && g2, "round == upTo on every path to `return true`")
-	}
-	// `return beacon.Round == upTo` (already-stored race) is an equality by construction
-	for _, r := range returnsOf(tn) {
-		for _, o := range returnOperands(r)[0] {
-			if b, ok := o.(*ssa.BinOp); ok {
-				n++
-				x, y := pathOf(b.X), pathOf(b.Y)
-				c.Ok(rule, "tryNode's already-stored outcome is success only for the target round", shortPos(c.P, r), b.Op == token.EQL && ((strings.HasSuffix(x, ".Round") && y == upTo) || (strings.HasSuffix(y, ".Round") && x == upTo)), x+" "+b.Op.String()+" "+y)
-			}
+				return false
+			})
+			g2 := rp != "" && dcGuarded(lf.at, DCons{upTo, rp, 0})
+			c.Ok(rule, "tryNode reports success only when the stored beacon's round equals the requested target", shortPos(c.P, lf.at), g1 && g2, "round == upTo on every path to `return true`")
+		case *ssa.BinOp:
+			// `return beacon.Round == upTo` (already-stored race) is an equality by construction
+			n++
+			a, b := pathOf(x.X), pathOf(x.Y)
+			c.Ok(rule, "tryNode's already-stored outcome is success only for the target round", shortPos(c.P, lf.at), x.Op == token.EQL && ((strings.HasSuffix(a, ".Round") && b == upTo) || (strings.HasSuffix(b, ".Round") && a == upTo)), a+" "+x.Op.String()+" "+b)
+		default:
+			n++
+			c.Undecided(rule, "tryNode outcome "+lf.v.Name(), shortPos(c.P, lf.at), "a returned value that is neither a constant nor a round comparison: "+lf.v.String())
 		}
 	}
 	c.Floor(rule, "success returns of tryNode", n, 2)
@@ -910,7 +949,9 @@ func ruleCursorCatchup(c *Ctx, rule string) {
 		return
 	}
 	var cur *ssa.Function
-	for _, ci := range callsIn(fn, func(ci ssa.CallInstruction) bool { return ci.Common().IsInvoke() && ci.Common().Method.Name() == "Cursor" }) {
+	for _, ci := range callsIn(fn, func(ci ssa.CallInstruction) bool {
+		return ci.Common().IsInvoke() && ci.Common().Method.Name() == "Cursor"
+	}) {
 		for _, f := range funcValuesOf(ci.Common().Args[1]) {
 			cur = f
 		}
